@@ -43,14 +43,14 @@ def run(ctx):
     )
     run.trusted_base = ["CPython ast", "sa/mirror.py symbolic executor and its domain constraints (total orders, disjoint classes)"]
     run.assumptions = ["callback comparators passed to iter_lex_cmp/iter_in are themselves in the checked comparator set"]
-    rule_producers_handlers(ctx)
-    rule_type_guard(ctx)
-    rule_comparator_mirror(ctx)
-    rule_pipeline(ctx)
-    rule_same_decider(ctx)
-    rule_sets_and_numbers(ctx)
-    rule_copy_complete(ctx)
-    rule_distinct_bindings(ctx)
+    ctx.do(rule_producers_handlers)
+    ctx.do(rule_type_guard)
+    ctx.do(rule_comparator_mirror)
+    ctx.do(rule_pipeline)
+    ctx.do(rule_same_decider)
+    ctx.do(rule_sets_and_numbers)
+    ctx.do(rule_copy_complete)
+    ctx.do(rule_distinct_bindings)
 
 
 def producers(prog):
